@@ -106,6 +106,23 @@ theorem recLen_encTLV (v : Val) (r : Bytes) (h : wf v) : recLen (encTLV v ++ r) 
     omega
   | backfill => simp [recLen, encTLV, fixedLen, tags]
 
+/-- the same for EVERY value, well-formed or not (an over-long string is cut by the writer to the length it announces) -/
+theorem recLen_encTLV_any (v : Val) (r : Bytes) : recLen (encTLV v ++ r) = .ok (encTLV v).length := by
+  cases v with
+  | str s =>
+    have hlt : s.length % 65536 < 65536 := Nat.mod_lt _ (by decide)
+    have hle : s.length % 65536 ≤ s.length := Nat.mod_le _ _
+    have hr : rdN 2 (leN 2 (s.length % 65536) ++ (s.take (s.length % 65536) ++ r))
+        = some (s.length % 65536, s.take (s.length % 65536) ++ r) := rdN_leN 2 _ _ (by simpa using hlt)
+    simp [recLen, encTLV, hr, leN_length, List.length_take, Nat.min_eq_left hle]
+    omega
+  | bool b => simp [recLen, encTLV, fixedLen, tags]
+  | num k bits =>
+    obtain ⟨h1, _, _, h4, h5⟩ := tag_ne k
+    simp [recLen, encTLV, h1, h4, h5, fixedLen_tag, leN_length]
+    omega
+  | backfill => simp [recLen, encTLV, fixedLen, tags]
+
 /-- C01.1 core: decoding what the writer wrote gives the value back, whatever follows -/
 theorem decTLV_encTLV (v : Val) (r : Bytes) (h : wf v) : decTLV (encTLV v ++ r) = some (v, r) := by
   cases v with
